@@ -38,6 +38,7 @@ func runC06(c *Ctx) {
 		"C06.d cursor and margin contracts of the motion/positioning functions (symbolic pre/post conditions proved on the code)",
 		"C06.f scroll up/down: every row of the region receives the row n lines away when that row is in the region and is erased (margins, pen background) otherwise; rows outside are untouched (n below and at/above the region height)",
 		"C06.i insert/delete line: every row from the cursor row to the bottom margin receives the row n lines above/below when that row is in the interval and is erased otherwise, rows outside are untouched, and nothing happens with the cursor outside the region (n within and beyond the lines that remain)",
+		"C06.j erase in line / erase in display / erase character: exactly the cells a VT erases are erased (EL 0/1/2, ED 0/1/2, ECH within and beyond the line): no cell outside the range is erased, every cell inside is, the loops start at or before the first and cannot stop before the last cell of the range",
 		"C06.g print blanks, in the pen's style, exactly the columns col+1 .. min(col+w-1, right margin) a wide glyph covers, on the glyph's row",
 	}
 	c.NotDec = []string{"grid contents (graphemes, widths, styles) after each operation; SGR-to-pen mapping (C18); behaviour in the deferred-wrap column other than printing, CR and absolute positioning (exempt by the statement)"}
@@ -68,6 +69,7 @@ func runC06(c *Ctx) {
 	c06RuleContracts(c, e, tabs)
 	c06RuleScroll(c, e, tabs)
 	c06RuleInsDel(c, e, tabs)
+	c06RuleEraseRanges(c, e, tabs)
 	c06RulePrint(c, e)
 	lap("contracts")
 	c05Debug(c)
@@ -858,6 +860,8 @@ type c06X struct {
 	depth int
 	bg    *types.Var // vaxis.Style.Background
 	cur   *types.Var // Model.cursor
+	// cellErase: single-cell erases are effects of kind "erase" (row, col) instead of being refused
+	cellErase bool
 	// loopHook gets the first look at every loop statement
 	loopHook func(fr *c05Frame, s ast.Stmt, st *c05State, effs []c06Eff) ([]c06Out, bool)
 }
@@ -1012,6 +1016,17 @@ func (x *c06X) execStmt(fr *c05Frame, s ast.Stmt, st *c05State, effs []c06Eff) [
 		if fn := calleeOf(fr.info, call); fn != nil {
 			if cf := x.c.P.FuncOfObj(fn); cf != nil && cf.Pkg == e.pk && cf.Decl.Body != nil {
 				if repoName(fn) == "widgets/term.cell.erase" {
+					if x.cellErase {
+						if sel, ok := unparen(call.Fun).(*ast.SelectorExpr); ok {
+							if cix, ok := unparen(sel.X).(*ast.IndexExpr); ok {
+								if rix, ok := unparen(cix.X).(*ast.IndexExpr); ok && e.pathKey(fr, rix.X) == c05Active {
+									return one(0, st, append(effs, c06Eff{kind: "erase", row: e.linOf(fr, st, rix.Index), col: e.linOf(fr, st, cix.Index), pos: call.Pos()}))
+								}
+							}
+						}
+						x.undecided("erase at %s is not an erase of a cell of the active screen", x.c.P.Pos(call.Pos()))
+						return nil
+					}
 					x.undecided("single-cell erase outside a row loop at %s", x.c.P.Pos(call.Pos()))
 					return nil
 				}
